@@ -8,7 +8,7 @@ The general evaluator is the expr-lang behaviour table `Cond.generalEval` (valid
 correspondence only, see `cfg/C12.py` assumptions).
 -/
 import SsqlVerif.Proofs.Cond
-import SsqlVerif.Model.CondShape
+import SsqlVerif.Proofs.CondShape
 import SsqlVerif.Spec.Cond
 import SsqlVerif.Generated.Facts
 set_option autoImplicit false
@@ -76,6 +76,65 @@ theorem spec_holds (c : CondM) (hs : c.Sound) (row : Row) :
   | none =>
     cases hg : generalEval c.pred row <;> simp [h1, hg, Res.decision]
   | some b => simp [h1, fastPath_agrees hs hf, Res.decision]
+
+/-! ### from the predicate *text* to the decision -/
+
+/-- The recogniser that stands for the two shape regexes accepts exactly the texts
+`ws column ws OP ws literal ws` (identifier, one of the eight operator spellings, `-?digits[.digits]`
+or `'…'` without a quote inside) and returns exactly those three tokens. -/
+theorem shape_cmp_iff (t : Str) (r : RawCmp) :
+    matchCmp t = some r ↔
+      ∃ w1 w2 w3 w4, allWs w1 = true ∧ allWs w2 = true ∧ allWs w3 = true ∧ allWs w4 = true ∧
+        t = r.render w1 w2 w3 w4 ∧ r.wf = true := by
+  constructor
+  · exact matchCmp_sound'
+  · rintro ⟨w1, w2, w3, w4, h1, h2, h3, h4, ht, hwf⟩
+    rw [ht]
+    exact matchCmp_complete' r w1 w2 w3 w4 hwf h1 h2 h3 h4
+
+example : matchCmp [' ', 'x', '1', ' ', '>', '=', '-', '5', '.', '5', '0', '\t'] = some ⟨['x', '1'], .ge, .num true ['5'] (some ['5', '0'])⟩ := by decide
+example : matchCmp ['x', ' ', '=', ' ', '=', ' ', '5'] = none := by decide
+example : matchCmp ['x', ' ', '=', '=', ' ', '\'', 'i', 't', '\'', '\'', 's', '\''] = none := by decide
+
+/-- `tryFastCompare` fires only on such a text, and only when the literal and the column name are
+ones expr-lang reads the same way (`RawCmp.ok`). -/
+theorem shape_compare_sound (t : Str) (r : RawCmp) (h : tryFastCompare t = some r) :
+    matchCmp t = some r ∧ r.ok = true :=
+  tryFastCompare_some h
+
+example : tryFastCompare ['n', 'i', 'l', ' ', '=', '=', ' ', '1'] = none := by decide
+example : tryFastCompare ['x', ' ', '=', '=', ' ', '\'', 'a', '\\', 'n', 'b', '\''] = none := by decide
+example : tryFastCompare ['x', ' ', '=', '=', ' ', '\'', 'a', '\r', 'b', '\''] = none := by decide
+example : (tryFastCompare ['x', ' ', '=', '=', ' ', '\'', 'a', 'b', '\'']).isSome = true := by decide
+
+/-- `tryFastCompound` fires only on a text without parentheses that is `part && part && …`
+(all `&&`) or `part || part || …` (all `||`), every part a text `tryFastCompare` fires on. -/
+theorem shape_compound_sound (t : Str) (isAnd : Bool) (rs : List RawCmp)
+    (h : tryFastCompound t = some (isAnd, rs)) :
+    t.contains '(' = false ∧ t.contains ')' = false ∧
+    t = joinWith (if isAnd then ['&', '&'] else ['|', '|']) (splitOps t []) ∧
+    allParts (splitOps t []) = some rs :=
+  tryFastCompound_some h
+
+example : (tryFastCompound ['x', ' ', '>', ' ', '1', ' ', '&', '&', ' ', 'y', ' ', '=', '=', ' ', '\'', 'b', '\'', ' ', '&', '&', 'z', '<', '3']).map (fun x => (x.1, x.2.length)) = some (true, 3) := by decide
+example : tryFastCompound ['x', ' ', '>', ' ', '1', ' ', '&', '&', ' ', 'y', ' ', '=', '=', ' ', '\'', 'b', '\'', ' ', '|', '|', ' ', 'z', '<', '3'] = none := by decide
+example : tryFastCompound ['(', 'x', ' ', '>', ' ', '1', ')', ' ', '&', '&', ' ', 'y', ' ', '<', ' ', '2'] = none := by decide
+
+/-- From the text: a condition built by `NewExprCondition` from a text whose recognised shapes
+denote the predicate expr-lang compiled (`parseAgrees`, the one assumption about expr-lang's parser;
+the driver evaluates it on every generated case) decides as the general evaluator decides. -/
+theorem newCond_evaluate (t : Str) (p : Pred) (c : CondM) (hparse : parseAgrees t p = true)
+    (h : newCond t (some p) = some c) (row : Row) :
+    c.evaluate row = SpecC12.generalDecision p row := by
+  have hp : c.pred = p := by
+    simp only [newCond, Option.map_some, Option.some.injEq] at h
+    rw [← h]
+  rw [← hp]
+  exact evaluate_eq_general c (newCond_sound hparse h) row
+
+example : parseAgrees ['x', ' ', '>', ' ', '1', ' ', '&', '&', ' ', 'y', ' ', '<', ' ', '2']
+    (.and (.cmp ⟨['x'], .gt, .int 1⟩) (.cmp ⟨['y'], .lt, .int 2⟩)) = true := by decide
+example : parseAgrees ['x', ' ', '>', ' ', '1', ' ', '&', '&', ' ', 'y', ' ', '<', ' ', '2'] (.cmp ⟨['x'], .gt, .int 1⟩) = false := by decide
 
 /-- `float64(i)` is `i` strictly inside ±2^53 … -/
 theorem round53_exact (i : Int) (h : exactInt i = true) : round53 i = i := round53_of_exact h
